@@ -54,7 +54,7 @@ class Flow:
         elif isinstance(node, ast.AugAssign):
             for n in self._targets(node.target):
                 self._add(n, node.value)
-        elif isinstance(node, (ast.For, ast.comprehension)):
+        elif isinstance(node, ast.For):
             for n in self._targets(node.target):
                 self._add(n, node.iter)
         elif isinstance(node, ast.With):
@@ -73,29 +73,46 @@ class Flow:
                 for a in node.args:
                     self._add(b.id, a)
 
-    def sources(self, expr: ast.AST, _seen: Optional[Set[str]] = None) -> Set[str]:
-        """Transitive sources: 'p' / 'p.attr' for parameters, 'call:<name>' for calls, 'const'."""
+    def sources(self, expr: ast.AST, _seen: Optional[Set[str]] = None, _local: Optional[Dict[str, ast.AST]] = None) -> Set[str]:
+        """Transitive sources: 'p' / 'p.attr' for parameters, 'call:<name>' for calls.
+        Comprehension variables are scoped to their own comprehension."""
         seen = _seen if _seen is not None else set()
+        local = _local or {}
         out: Set[str] = set()
+        if isinstance(expr, (ast.ListComp, ast.SetComp, ast.GeneratorExp, ast.DictComp)):
+            loc = dict(local)
+            for g in expr.generators:
+                out |= self.sources(g.iter, seen, loc)
+                for n in self._targets(g.target):
+                    loc[n] = g.iter
+                for c in g.ifs:
+                    out |= self.sources(c, seen, loc)
+            if isinstance(expr, ast.DictComp):
+                out |= self.sources(expr.key, seen, loc) | self.sources(expr.value, seen, loc)
+            else:
+                out |= self.sources(expr.elt, seen, loc)
+            return out
         if isinstance(expr, ast.Attribute):
             chain = []
             b = expr
             while isinstance(b, ast.Attribute):
                 chain.append(b.attr)
                 b = b.value
-            if isinstance(b, ast.Name) and b.id in self.params and b.id not in self.defs:
+            if isinstance(b, ast.Name) and b.id in self.params and b.id not in self.defs and b.id not in local:
                 out.add("%s.%s" % (b.id, chain[-1]))
                 return out
         if isinstance(expr, ast.Name):
+            if expr.id in local:
+                return self.sources(local[expr.id], seen, {k: v for k, v in local.items() if k != expr.id})
             if expr.id in self.params and expr.id not in seen:
                 out.add(expr.id)
             if expr.id in self.defs and expr.id not in seen:
                 seen.add(expr.id)
                 for rhs in self.defs[expr.id]:
-                    out |= self.sources(rhs, seen)
+                    out |= self.sources(rhs, seen, None)
             return out
         if isinstance(expr, ast.Call):
             out.add("call:" + norm(expr.func))
         for ch in ast.iter_child_nodes(expr):
-            out |= self.sources(ch, seen)
+            out |= self.sources(ch, seen, local)
         return out
